@@ -4,7 +4,7 @@
 # scratch worktree and runs the named checks against it. Leaves nothing behind.
 set -u
 ID=$1; M=$2; DEST=$3; shift 3
-SRC=/tmp/mutout/$ID/$M
+SRC=${MUTOUT:-/tmp/mutout}/$ID/$M
 WT=/tmp/evalmut-$ID-$M
 export GOFLAGS=-mod=mod GOPROXY=off GOSUMDB=off GOTOOLCHAIN=local
 export PATH=/root/go/pkg/mod/golang.org/toolchain@v0.0.1-go1.25.0.linux-amd64/bin:$PATH
